@@ -99,6 +99,28 @@ def gen_cases(tier, rng):
         for w, exp in ((['-o', '-f', 'x'], 'b0=0;b1=0;i0=0;s0=s78'), (['-v', '-o', '-q', '-n', '4'], 'b0=1;b1=1;i0=4;s0=s-'),
                        (['--output', '--file=y', '-v'], 'b0=1;b1=0;i0=0;s0=s79'), (['-o', '-x'], 'reject'), (['-f', 'x'], 'reject')):
             cases.append('%s %s exp:%s mut:%s' % (pre, A.argv_tok(w), exp, 'unknown-short' if exp == 'reject' else 'none'))
+    # rules on the sub-group argument of a member (mandatory, cardinality) are enforced through the group as in
+    # stand-alone evaluation
+    for order in (('a', 'b'), ('b', 'a')):
+        for rule, lines in (('man', ((['-v'], 'reject'), ([], 'reject'), (['-n', '3'], 'reject'),
+                                     (['-o', '-f', 'x'], 'b0=0;i0=0;s0=s78'), (['-v', '--output', '-n', '2'], 'b0=1;i0=2;s0=s-'))),
+                            ('card=range~2~3', ((['-o', '-f', 'x'], 'reject'), (['-o', '-v'], 'reject'),
+                                                (['-o', '-f', 'x', '-o', '-v'], 'b0=1;i0=0;s0=s78'),
+                                                (['-o', '-o', '-o', '-o'], 'reject'), (['-v'], 'b0=1;i0=0;s0=s-'))),
+                            ('card=exact~1', ((['-o', '-o'], 'reject'), (['-o', '-n', '5'], 'b0=0;i0=5;s0=s-'),
+                                              (['-v'], 'b0=1;i0=0;s0=s-')))):
+            parts = {'a': 'G:a:f=0 arg:v:b0:init=0', 'b': 'G:b:f=0 arg:n:i0: S:o,output:f=0:%s arg:f,file:s0:' % rule}
+            pre = ' '.join(parts[m] for m in order)
+            for w, exp in lines:
+                cases.append('%s %s exp:%s mut:%s' % (pre, A.argv_tok(w), exp, 'subgroup-rule' if exp == 'reject' else 'none'))
+    # the key of a sub-group argument is a key of the group like any other: taken once
+    for k0, k1 in (('g', 'g'), ('g,go', 'g'), ('g', 'g,go'), ('go', 'x,go'), ('g,go', 'g,gone')):
+        cases.append('G:a:f=0 arg:%s:b0:init=0 G:b:f=0 arg:x:b1:init=0 S:%s:f=0 arg:q:b2:init=0 argv:- exp:setup mut:shared-key' % (k0, k1))
+        cases.append('G:a:f=0 arg:k:b0:init=0 S:%s:f=0 arg:q:b2:init=0 G:b:f=0 arg:%s:b1:init=0 argv:- exp:setup mut:shared-key' % (k0, k1))
+        cases.append('G:a:f=0 arg:k:b0:init=0 S:%s:f=0 arg:q:b2:init=0 G:b:f=0 arg:x:b1:init=0 S:%s:f=0 arg:r:b3:init=1 argv:- exp:setup mut:shared-key' % (k0, k1))
+        cases.append('G:a:f=0 arg:%s:b0:init=0 G:c:f=0 arg:y:i0: G:b:f=0 arg:x:b1:init=0 S:%s:f=0 arg:q:b2:init=0 argv:- exp:setup mut:shared-key' % (k0, k1))
+    # ... and distinct keys are accepted
+    cases.append('G:a:f=0 arg:g:b0:init=0 G:b:f=0 arg:x:b1:init=0 S:h:f=0 arg:q:b2:init=0 argv:2d68,2d71,2d67 exp:b0=1;b1=0;b2=1 mut:none')
     # the same key in two members with the flags of the Groups singleton that are passed on to the members
     for gs in (0x20000, 0x8000, 0x28000):
         for nm in (2, 3):
